@@ -6,6 +6,7 @@ import InfluxQL.Lemmas.StmtPieces
 import InfluxQL.Lemmas.StmtExprPieces
 import InfluxQL.Lemmas.SelectPieces
 import InfluxQL.Lemmas.SelectClauses
+import InfluxQL.Lemmas.SelectCQ
 import InfluxQL.Lemmas.IntLit
 import InfluxQL.Lemmas.RegexRoundTrip
 import InfluxQL.Lemmas.NumberRoundTrip
@@ -2548,6 +2549,289 @@ end
 
 example : (match (runHandler 204 .parseSelectStatement_targetNotRequired).run (PState.init exClausesText [] []) with
     | .ok (.select st, _) => st.print == tx "SELECT" ++ exClausesText
+    | _ => false) = true := by decide +kernel
+
+/-! ### the frame property of `parseSelectStatement` -/
+
+/-- **No step of `parseSelectStatement` changes the bound parameters or the lower-casing table** (subqueries to
+any depth, any fuel, any input): whenever it returns, `PState.params` and `PState.lowerTbl` are those of the
+start state. Proved once for the whole parser by the closure rules of `Frame` (`Lemmas/SelectFrame.lean`:
+`pscanWith`, `unscan`, `peekRune`, `get` are the only primitives that touch the state); this is what carries
+`lowerStr tbl "fill" = "fill"` / `RT.wOK tbl e` from the start state to the GROUP BY and fill() clauses. -/
+theorem parseSelect_same_env (fuel : Nat) (tr : Bool) (s s' : PState) (st : SelectStmt)
+    (h : (parseSelect fuel tr).run s = .ok (st, s')) : s'.params = s.params ∧ s'.lowerTbl = s.lowerTbl :=
+  (parseSelect_frame fuel tr).run h
+
+/-! ### SELECT over the wide class: calls, numbers, durations, wildcards; `GROUP BY time(…)`, `*`; `fill(…)` -/
+
+/-- The statements `selectWide_print_parse_partial` covers (decidable, relative to the lower-casing table `tbl`
+of the input): the clauses of `BodyOKW` and qualified measurements with a name as sources. -/
+def WideSelect (tbl : List (Char × Char)) (f : Field) (fs : List Field) (tgt : Option (Str × Str × Str))
+    (q : Str × Str × Str) (qs : List (Str × Str × Str)) (c : Option Expr) (ds : List Expr) (fill : FillOption)
+    (fv : FillValue) (sf : List SortField) (l o sl so : Int) (loc : Option Str) : Prop :=
+  BodyOKW tbl f fs tgt c ds fill fv sf l o sl so loc ∧ ∀ m ∈ q :: qs, QualOK m
+
+instance (tbl : List (Char × Char)) (f : Field) (fs : List Field) (tgt : Option (Str × Str × Str))
+    (q : Str × Str × Str) (qs : List (Str × Str × Str)) (c : Option Expr) (ds : List Expr) (fill : FillOption)
+    (fv : FillValue) (sf : List SortField) (l o sl so : Int) (loc : Option Str) :
+    Decidable (WideSelect tbl f fs tgt q qs c ds fill fv sf l o sl so loc) := by
+  unfold WideSelect; exact inferInstance
+
+/-- What is printed after the keyword SELECT. -/
+def selectWideText (f : Field) (fs : List Field) (tgt : Option (Str × Str × Str)) (q : Str × Str × Str)
+    (qs : List (Str × Str × Str)) (c : Option Expr) (ds : List Expr) (fill : FillOption) (fv : FillValue)
+    (sf : List SortField) (l o sl so : Int) (loc : Option Str) : Str :=
+  bodyText f fs tgt ((qualM q).print ++ moreQuals qs) c ds fill fv sf l o sl so loc
+
+/-- The pieces are what `SelectStatement.String()` writes (sort list and fill option of the class). -/
+theorem selectWide_print (tbl : List (Char × Char)) (f : Field) (fs : List Field) (tgt : Option (Str × Str × Str))
+    (q : Str × Str × Str) (qs : List (Str × Str × Str)) (c : Option Expr) (ds : List Expr) (fill : FillOption)
+    (fv : FillValue) (sf : List SortField) (l o sl so : Int) (loc : Option Str) (hsf : sortOKB sf = true)
+    (hfill : fillOKW tbl fill fv = true) :
+    (Statement.select (wideSelect f fs tgt ((q :: qs).map qualSrc) c ds fill fv sf l o sl so loc)).print =
+      tx "SELECT" ++ selectWideText f fs tgt q qs c ds fill fv sf l o sl so loc := by
+  show (wideSelect f fs tgt ((q :: qs).map qualSrc) c ds fill fv sf l o sl so loc).print = _
+  rw [wideSelect_print tbl f fs tgt _ c ds fill fv sf l o sl so loc (by simp) hsf hfill, printSources_quals]
+  rfl
+
+/-- **Print → parse, SELECT over the wide class.** `parseSelectStatement` on the text printed after the keyword
+`SELECT`, followed by `k`, returns exactly the statement and stands before `k` — or the fuel was too small.
+
+Partial — the class `WideSelect s.lowerTbl` (relative to the lower-casing table shipped with the input; for the
+empty table, or any table without ASCII entries, no condition on names is left). New against
+`selectClauses_print_parse_partial`: fields, condition and dimensions of C03's wide class — calls such as
+`mean(value)`, `now()`, number and duration literals, wildcards as fields; `GROUP BY time(5m)`,
+`time(5m, 1m)` (printed by `FormatDuration`), `*`; and `fill(none|previous|linear|<integer>|<number>)` exactly as
+the printer writes it (`NullFill` prints nothing and is read back as `NullFill`). The table is carried to the
+clauses by the frame lemma. Still excluded (all producible by the parser): subqueries (see
+`selectSub_print_parse_partial`), regex sources and regex dimensions, call names that are not fixed points of the
+table or need quotes (open finding `call-name-printed-unquoted`), the negated-operand trees of the open finding,
+non-canonical decimals, location names with a quote or backslash, empty measurement names (finding
+`empty-identifier-not-printed`), the fill value `<nil>` (never parsed). -/
+theorem selectWide_print_parse_partial (fuel : Nat) (s : PState) (f : Field) (fs : List Field)
+    (tgt : Option (Str × Str × Str)) (q : Str × Str × Str) (qs : List (Str × Str × Str))
+    (c : Option Expr) (ds : List Expr) (fill : FillOption) (fv : FillValue) (sf : List SortField) (l o sl so : Int)
+    (loc : Option Str) (k : Str)
+    (hok : WideSelect s.lowerTbl f fs tgt q qs c ds fill fv sf l o sl so loc) (hk : Follow k selectStop)
+    (hs : s.Before (selectWideText f fs tgt q qs c ds fill fv sf l o sl so loc ++ k)) :
+    wp (runHandler (fuel + 4) .parseSelectStatement_targetNotRequired) s
+      (fun st s' => st = .select (wideSelect f fs tgt ((q :: qs).map qualSrc) c ds fill fv sf l o sl so loc) ∧
+        RT.Stand s' k) (· = .fuel) := by
+  obtain ⟨hbody, hn⟩ := hok
+  simp only [runHandler, parseSelect]
+  rw [wp_bind]
+  refine wp_mono (selectBody_printW fuel (some (parseSelect (fuel + 3) false))
+    (fun p hp => by cases hp; exact parseSelect_frame _ _) s f fs tgt ((q :: qs).map qualSrc)
+    ((qualM q).print ++ moreQuals qs) c ds fill fv sf l o sl so loc k false (fun h => by cases h) hbody ?_ hk hs) ?_
+    (fun _ h => h)
+  · intro s3 k' _ hk' hb
+    obtain ⟨s4, h4, st4⟩ := parseSourcesWith_quals (some (parseSelect (fuel + 3) false)) s3 q qs k' hn hk'
+      (by simpa [List.append_assoc] using hb)
+    rw [wp_of_run_ok h4]
+    exact ⟨rfl, st4⟩
+  · intro st s' ⟨hst, hs'⟩
+    rw [wp_pure, hst]
+    exact ⟨rfl, hs'⟩
+
+/-- Non-vacuity: `SELECT mean(value), *, a * 2.5 AS x INTO "my db"..tgt FROM db.rp."x.y", m WHERE time > now() - 1h
+GROUP BY time(5m, 1m), host, * fill(-5) ORDER BY time DESC LIMIT 10 SLIMIT 2 TZ('Europe/Berlin')`. -/
+def exWF1 : Field := ⟨.call "mean".toList [.varRef "value".toList .Unknown], []⟩
+def exWFs : List Field :=
+  [⟨.wildcard .ILLEGAL, []⟩, ⟨.binary .MUL (.varRef ['a'] .Unknown) (.number ⟨false, 25, 1⟩), ['x']⟩]
+def exWCond : Option Expr :=
+  some (.binary .GT (.varRef "time".toList .Unknown) (.binary .SUB (.call "now".toList []) (.duration 3600000000000)))
+def exWDims : List Expr :=
+  [.call "time".toList [.duration 300000000000, .duration 60000000000], .varRef "host".toList .Unknown, .wildcard .ILLEGAL]
+def exWideText : Str :=
+  selectWideText exWF1 exWFs exTgt exQ [([], [], ['m'])] exWCond exWDims .number (.int (-5)) exSort 10 0 2 0 exLoc
+
+example : exWideText = (" mean(value), *, a * 2.5 AS x INTO \"my db\"..tgt FROM db.rp.\"x.y\", m " ++
+    "WHERE time > now() - 1h GROUP BY time(5m, 1m), host, * fill(-5) ORDER BY time DESC LIMIT 10 SLIMIT 2 " ++
+    "TZ('Europe/Berlin')").toList := by decide +kernel
+
+example : WideSelect [] exWF1 exWFs exTgt exQ [([], [], ['m'])] exWCond exWDims .number (.int (-5)) exSort 10 0 2 0 exLoc := by
+  decide +kernel
+
+-- the other fill options; not in the class: a number fill without a value (`fill(<nil>)` is never parsed),
+-- a table that changes the word `fill`, a call name with a capital
+example : fillOKW [] .none .none = true ∧ fillOKW [] .previous .none = true ∧ fillOKW [] .linear .none = true ∧
+    fillOKW [] .null .none = true ∧ fillOKW [] .number (.num ⟨true, 15, 1⟩) = true ∧
+    fillOKW [] .number .none = false ∧ fillOKW [('f', 'g')] .none .none = false ∧
+    fillText .linear .none = " fill(linear)".toList ∧ fillText .number (.num ⟨true, 15, 1⟩) = " fill(-1.5)".toList ∧
+    RT.wOK [] (.call "Mean".toList []) = false := by
+  decide +kernel
+
+section
+attribute [local irreducible] wp
+example : wp (runHandler 204 .parseSelectStatement_targetNotRequired) (PState.init exWideText [] [])
+    (fun st s' => st = .select (wideSelect exWF1 exWFs exTgt ((exQ :: [([], [], ['m'])]).map qualSrc) exWCond exWDims .number
+      (.int (-5)) exSort 10 0 2 0 exLoc) ∧ RT.Stand s' [eofRune]) (· = .fuel) :=
+  selectWide_print_parse_partial 200 (PState.init exWideText [] []) exWF1 exWFs exTgt exQ
+    [([], [], ['m'])] exWCond exWDims .number (.int (-5)) exSort 10 0 2 0 exLoc [eofRune] (by decide +kernel)
+    (Follow.eof _ (by decide)) (init_before exWideText (by decide +kernel))
+end
+
+example : (match (runHandler 204 .parseSelectStatement_targetNotRequired).run (PState.init exWideText [] []) with
+    | .ok (.select st, _) => st.print == tx "SELECT" ++ exWideText
+    | _ => false) = true := by decide +kernel
+
+/-! ### SELECT with subqueries as sources, nested to any depth -/
+
+/-- A statement of the class `selOKB tbl n` prints as the keyword `SELECT` and its tail. -/
+theorem selectSub_print (tbl : List (Char × Char)) (n : Nat) (st : SelectStmt) (h : selOKB tbl n st = true) :
+    (Statement.select st).print = tx "SELECT" ++ selectTail st := by
+  obtain ⟨y, hy⟩ := selOKB_print tbl n st h
+  show st.print = _
+  rw [selectTail_of_print hy]
+  exact hy
+
+/-- **Print → parse, SELECT with subqueries.** For every nesting depth `n`: `parseSelectStatement` on the text
+`SelectStatement.String()` writes after the keyword `SELECT`, followed by `k`, returns exactly the statement — every
+`FROM (SELECT …)` as a `SubQuery` source with its own statement, recursively — and stands before `k`, or the fuel
+was too small. (The model hands the subquery parser to `parseSource` and `parseSelect` is structural on its fuel;
+the proof is an induction on the depth over the body lemma `selectBody_printW`, which is generic in the sources.)
+
+Partial — the class `selOKB s.lowerTbl n st`, a decidable predicate on the AST: at every level the clauses of
+`selectWide_print_parse_partial` (`BodyOKW`), sources that are qualified measurements with a name or subqueries of
+the class, less than `n` levels deep. Excluded as there: regex sources and dimensions, call names needing quotes
+or changed by the table, the negated-operand trees, non-canonical decimals, empty measurement names; and statements
+whose `TimeAlias` / `OmitTime` / `StripName` / `EmitName` / `Dedupe` were set by a later pass (not printed). -/
+theorem selectSub_print_parse_partial (n fuel : Nat) (s : PState) (st : SelectStmt) (k : Str)
+    (hok : selOKB s.lowerTbl n st = true) (hk : Follow k selectStop) (hs : s.Before (selectTail st ++ k)) :
+    wp (runHandler (fuel + n + 3) .parseSelectStatement_targetNotRequired) s
+      (fun r s' => r = .select st ∧ RT.Stand s' k) (· = .fuel) := by
+  simp only [runHandler]
+  rw [wp_bind]
+  refine wp_mono (parseSelect_sub s.lowerTbl n fuel false st s k hok (fun h => by cases h) rfl hk hs) ?_ (fun _ h => h)
+  intro r s' ⟨hr, hs'⟩
+  rw [wp_pure, hr]
+  exact ⟨rfl, hs'⟩
+
+/-- Non-vacuity: `SELECT mean(x) FROM (SELECT max(value) AS x FROM (SELECT value FROM db.rp.cpu WHERE host = 'a')
+GROUP BY time(5m) fill(none)), m GROUP BY host LIMIT 5`. -/
+def exSub2 : SelectStmt :=
+  wideSelect ⟨.varRef "value".toList .Unknown, []⟩ [] none [qualSrc ("db".toList, "rp".toList, "cpu".toList)]
+    (some (.binary .EQ (.varRef "host".toList .Unknown) (.string ['a']))) [] .null .none [] 0 0 0 0 none
+def exSub1 : SelectStmt :=
+  wideSelect ⟨.call "max".toList [.varRef "value".toList .Unknown], ['x']⟩ [] none [.subquery exSub2] none
+    [.call "time".toList [.duration 300000000000]] .none .none [] 0 0 0 0 none
+def exSub0 : SelectStmt :=
+  wideSelect ⟨.call "mean".toList [.varRef ['x'] .Unknown], []⟩ [] none [.subquery exSub1, qualSrc ([], [], ['m'])] none
+    [.varRef "host".toList .Unknown] .null .none [] 5 0 0 0 none
+
+example : selectTail exSub0 = (" mean(x) FROM (SELECT max(value) AS x FROM (SELECT value FROM db.rp.cpu " ++
+    "WHERE host = 'a') GROUP BY time(5m) fill(none)), m GROUP BY host LIMIT 5").toList := by decide +kernel
+
+-- in the class at depth 3, not at depth 2; a regex source is outside
+example : selOKB [] 3 exSub0 = true ∧ selOKB [] 2 exSub0 = false ∧
+    selOKB [] 1 (wideSelect ⟨.varRef ['a'] .Unknown, []⟩ [] none [.measurement { regex := some ['x'] }] none [] .null .none []
+      0 0 0 0 none) = false := by decide +kernel
+
+section
+attribute [local irreducible] wp
+example : wp (runHandler 206 .parseSelectStatement_targetNotRequired) (PState.init (selectTail exSub0) [] [])
+    (fun st s' => st = .select exSub0 ∧ RT.Stand s' [eofRune]) (· = .fuel) :=
+  selectSub_print_parse_partial 3 200 (PState.init (selectTail exSub0) [] []) exSub0 [eofRune] (by decide +kernel)
+    (Follow.eof _ (by decide)) (init_before (selectTail exSub0) (by decide +kernel))
+end
+
+example : (match (runHandler 206 .parseSelectStatement_targetNotRequired).run (PState.init (selectTail exSub0) [] []) with
+    | .ok (.select st, _) => st.print == exSub0.print
+    | _ => false) = true := by decide +kernel
+
+/-! ### EXPLAIN [ANALYZE] [VERBOSE] SELECT … -/
+
+/-- The pieces are what `ExplainStatement.String()` writes, for a SELECT of the class. -/
+theorem explain_print (tbl : List (Char × Char)) (n : Nat) (st : SelectStmt) (analyze verbose : Bool)
+    (h : selOKB tbl n st = true) :
+    (Statement.explain st analyze verbose).print = tx "EXPLAIN" ++ explainText analyze verbose st :=
+  explain_print_eq tbl n st analyze verbose h
+
+/-- **Print → parse, EXPLAIN.** `parseExplainStatement` on the text printed after the keyword `EXPLAIN`
+(` ANALYZE` / ` VERBOSE` when set, ` SELECT` and the statement), followed by `k`, returns exactly the statement with
+both flags and stands before `k` — or the fuel was too small.
+
+Partial — the SELECT statement is of the class `selOKB s.lowerTbl n` (wide class at every level, subqueries nested
+less than `n` deep; exclusions as in `selectSub_print_parse_partial`). -/
+theorem explain_print_parse_partial (n fuel : Nat) (s : PState) (st : SelectStmt) (analyze verbose : Bool) (k : Str)
+    (hok : selOKB s.lowerTbl n st = true) (hk : Follow k selectStop)
+    (hs : s.Before (explainText analyze verbose st ++ k)) :
+    wp (runHandler (fuel + n + 3) .parseExplainStatement) s
+      (fun r s' => r = .explain st analyze verbose ∧ RT.Stand s' k) (· = .fuel) :=
+  parseExplain_print n fuel s st analyze verbose k hok hk hs
+
+/-- Non-vacuity: `EXPLAIN ANALYZE SELECT mean(x) FROM (SELECT … FROM (SELECT …) …), m GROUP BY host LIMIT 5`. -/
+def exExplainText : Str := explainText true false exSub0
+
+example : tx "EXPLAIN" ++ exExplainText = ("EXPLAIN ANALYZE SELECT mean(x) FROM (SELECT max(value) AS x FROM " ++
+    "(SELECT value FROM db.rp.cpu WHERE host = 'a') GROUP BY time(5m) fill(none)), m GROUP BY host LIMIT 5").toList := by
+  decide +kernel
+
+section
+attribute [local irreducible] wp
+example : wp (runHandler 206 .parseExplainStatement) (PState.init exExplainText [] [])
+    (fun st s' => st = .explain exSub0 true false ∧ RT.Stand s' [eofRune]) (· = .fuel) :=
+  explain_print_parse_partial 3 200 (PState.init exExplainText [] []) exSub0 true false [eofRune] (by decide +kernel)
+    (Follow.eof _ (by decide)) (init_before exExplainText (by decide +kernel))
+end
+
+example : (match (runHandler 206 .parseExplainStatement).run (PState.init (explainText true true exSub0) [] []) with
+    | .ok (st, _) => st.print == (Statement.explain exSub0 true true).print
+    | _ => false) = true := by decide +kernel
+
+/-! ### CREATE CONTINUOUS QUERY … [RESAMPLE …] BEGIN SELECT … INTO … END -/
+
+/-- The pieces are what `CreateContinuousQueryStatement.String()` writes, for a SELECT of the class. -/
+theorem createContinuousQuery_print (tbl : List (Char × Char)) (n : Nat) (name db : Str) (ev fo : Int) (st : SelectStmt)
+    (h : selOKB tbl n st = true) :
+    (Statement.createContinuousQuery name db st ev fo).print =
+      tx "CREATE CONTINUOUS QUERY" ++ cqText name db ev fo st :=
+  cq_print_eq tbl n name db ev fo st h
+
+/-- **Print → parse, CREATE CONTINUOUS QUERY.** `parseCreateContinuousQueryStatement` on the text printed after the
+keywords `CREATE CONTINUOUS QUERY` — name, `ON` database, `RESAMPLE [EVERY d] [FOR d]` when one of the two durations
+is positive (printed by `FormatDuration`), `BEGIN`, the SELECT statement, `END` —, followed by `k`, returns exactly the
+statement (name, database, source, both durations) and stands before `k`, or the fuel was too small.
+
+The hypotheses `htgt` (there is an `INTO`) and `hcq` (`cqOKB`: a query with calls has a non-zero `GROUP BY time(…)`
+interval and `validate()` accepts the durations) are what the handler checks: every statement it returns satisfies
+them. Partial — the SELECT statement is of the class `selOKB s.lowerTbl n` (exclusions as in
+`selectSub_print_parse_partial`); names are expressible (no NUL, no CR), durations in `0 … MaxInt64` (what
+`ParseDuration` returns). `k` does not continue the keyword `END`. -/
+theorem createContinuousQuery_print_parse_partial (n fuel : Nat) (s : PState) (name db : Str) (ev fo : Int)
+    (st : SelectStmt) (k : Str) (hex1 : Expressible name) (hex2 : Expressible db) (hev : LimOK ev) (hfo : LimOK fo)
+    (hok : selOKB s.lowerTbl n st = true) (htgt : st.target ≠ none) (hcq : cqOKB st ev fo = true) (hk : WordEnd k)
+    (hs : s.Before (cqText name db ev fo st ++ k)) :
+    wp (runHandler (fuel + n + 3) .parseCreateContinuousQueryStatement) s
+      (fun r s' => r = .createContinuousQuery name db st ev fo ∧ RT.Stand s' k) (· = .fuel) :=
+  parseCQ_print n fuel s name db ev fo st k hex1 hex2 hev hfo hok htgt hcq hk hs
+
+/-- Non-vacuity: `CREATE CONTINUOUS QUERY "my cq" ON db0 RESAMPLE EVERY 10m FOR 1h BEGIN SELECT mean(value) INTO
+"my db"..tgt FROM cpu GROUP BY time(5m) END`. -/
+def exCQSel : SelectStmt :=
+  wideSelect ⟨.call "mean".toList [.varRef "value".toList .Unknown], []⟩ [] exTgt [qualSrc ([], [], "cpu".toList)] none
+    [.call "time".toList [.duration 300000000000]] .null .none [] 0 0 0 0 none
+def exCQText : Str := cqText "my cq".toList "db0".toList 600000000000 3600000000000 exCQSel
+
+example : tx "CREATE CONTINUOUS QUERY" ++ exCQText = ("CREATE CONTINUOUS QUERY \"my cq\" ON db0 RESAMPLE EVERY 10m FOR 1h " ++
+    "BEGIN SELECT mean(value) INTO \"my db\"..tgt FROM cpu GROUP BY time(5m) END").toList := by decide +kernel
+
+-- the handler's checks: a FOR duration below the GROUP BY interval is rejected, as is a call without GROUP BY time(…)
+example : cqOKB exCQSel 600000000000 3600000000000 = true ∧ cqOKB exCQSel 0 60000000000 = false ∧
+    cqOKB exSub0 0 0 = false := by decide +kernel
+
+section
+attribute [local irreducible] wp
+example : wp (runHandler 204 .parseCreateContinuousQueryStatement) (PState.init exCQText [] [])
+    (fun st s' => st = .createContinuousQuery "my cq".toList "db0".toList exCQSel 600000000000 3600000000000 ∧
+      RT.Stand s' [eofRune]) (· = .fuel) :=
+  createContinuousQuery_print_parse_partial 1 200 (PState.init exCQText [] []) "my cq".toList "db0".toList 600000000000
+    3600000000000 exCQSel [eofRune] (by decide +kernel) (by decide +kernel) (by decide +kernel) (by decide +kernel)
+    (by decide +kernel) (by decide +kernel) (by decide +kernel) WordEnd.eof (init_before exCQText (by decide +kernel))
+end
+
+example : (match (runHandler 204 .parseCreateContinuousQueryStatement).run (PState.init exCQText [] []) with
+    | .ok (st, _) => st.print == tx "CREATE CONTINUOUS QUERY" ++ exCQText
     | _ => false) = true := by decide +kernel
 
 /-! ## passwords -/
